@@ -10,7 +10,8 @@
 From Coq Require Import List Bool NArith PeanoNat.
 Import ListNotations.
 Require Import PV.Binder.Kind PV.Gen.Kinds PV.Binder.Sig PV.Binder.Bind PV.Binder.PyBind.
-Require Import PV.Proofs.BinderConcrete PV.Proofs.BinderValid PV.Proofs.BinderStar PV.Proofs.BinderMain.
+Require Import PV.Proofs.BinderConcrete PV.Proofs.BinderValid PV.Proofs.BinderStar PV.Proofs.BinderMain PV.Proofs.BinderDef PV.Proofs.BinderGen PV.Proofs.BinderPositions.
+Require Import PV.Gen.BinderShape.
 Open Scope N_scope.
 
 (* 1. Concrete call shapes: for EVERY valid signature (any number of parameters,
@@ -96,3 +97,47 @@ Theorem C05_valid_sig_shape : forall s, valid_sig s = true ->
   names_nodup (map pname s) = true /\ pos_before_vp s = true.
 Proof. exact valid_sig_shape. Qed.
 Print Assumptions C05_valid_sig_shape.
+
+(* 6. Signature.validate (over the regenerated KIND_TO_ALLOWED_PREVIOUS / CAN_HAVE_DEFAULT)
+      accepts exactly the parameter lists a `def` header can denote:
+      po.. / pok.. *vp ko.. **vk in that order, at most one *vp and **vk, neither with a
+      default, no default-less po/pok after one with a default, distinct names. *)
+Theorem C05_valid_sig_matches_def : forall s, valid_sig s = def_header_ok s.
+Proof. exact valid_sig_matches_def. Qed.
+Print Assumptions C05_valid_sig_matches_def.
+
+(* 7. Tie to the current source: the four rejecting checks after the loop of
+      Signature.bind_arguments, as translated from signature.py on this run
+      (Gen/BinderShape.v, gen_finish), are the ones of the model; all theorems above are
+      therefore about the loop model followed by the GENERATED final checks. *)
+Theorem C05_bind_uses_generated_finish : forall s a,
+  bind s a = match bind_params a init_state s with
+             | None => None
+             | Some st => if gen_finish a st then Some (rev (bound st)) else None
+             end.
+Proof. exact bind_uses_generated_finish. Qed.
+Print Assumptions C05_bind_uses_generated_finish.
+
+(* 8. Positions: for a concrete call that binds, the entry the binder records for EVERY
+      parameter agrees with where CPython takes that parameter's value from (`agrees`):
+      Pos i <-> the i-th positional argument, Kw k <-> keyword k, Default <-> the default,
+      *args <-> the same slice of positionals (Default when it is empty), **kwargs <-> the
+      same keyword names in call order (Default when empty). No bound on sizes. *)
+Theorem C05_bind_positions_correct : forall s a b,
+  valid_sig s = true -> concrete a -> names_nodup (map fst (keywords a)) = true ->
+  bind s a = Some b ->
+  exists l, py_bind_full s (length (positionals a)) (map fst (keywords a)) = Some l
+            /\ Forall2 agrees b l.
+Proof. exact bind_positions_correct. Qed.
+Print Assumptions C05_bind_positions_correct.
+
+Example C05_positions_example :
+  let s := [mkParam 1 PO false; mkParam 2 POK false; mkParam 3 POK true; mkParam 4 VP false;
+            mkParam 5 KO false; mkParam 6 VK false] in
+  let a := mkActuals [true; true; true; true] false [(5, true); (7, true)] false false in
+  bind s a = Some [(1, Pos 0, One); (2, Pos 1, One); (3, Pos 2, One); (4, Args, Tuple 3 1 false);
+                   (5, Kw 5, One); (6, Kwargs, Dict [7] false)]
+  /\ py_bind_full s 4 [5; 7]
+     = Some [(1, SPos 0); (2, SPos 1); (3, SPos 2); (4, SVarPos 3 1); (5, SKw 5); (6, SVarKw [7])].
+Proof. exact positions_example. Qed.
+Print Assumptions C05_positions_example.
